@@ -15,16 +15,27 @@ EPS = 2.220446049250313e-16
 # scalars
 # ----------------------------------------------------------------------------
 
+
+def _flush(v):
+    # XLA on CPU flushes subnormal numbers to zero, and products of two tiny normal numbers become subnormal: magnitudes
+    # below 1e-150 are not part of any input domain here (Hypothesis likes to propose 5e-324, 2.2e-309, ...)
+    return 0.0 if abs(v) < 1e-150 else v
+
+
+def floats(lo=None, hi=None, **kw):
+    """st.floats without subnormal / near-underflow magnitudes."""
+    return st.floats(lo, hi, **kw).map(_flush)
+
 def logfloat(lo_exp, hi_exp, signed=False):
     """mantissa in [1,10) times 10**exponent, exponent uniform in [lo_exp, hi_exp)."""
-    s = st.builds(lambda m, e: float(m * 10.0 ** e), st.floats(1.0, 9.999), st.integers(lo_exp, hi_exp - 1))
+    s = st.builds(lambda m, e: float(m * 10.0 ** e), floats(1.0, 9.999), st.integers(lo_exp, hi_exp - 1))
     if signed:
         return st.builds(lambda v, sg: v if sg else -v, s, st.booleans())
     return s
 
 
 def loguniform(lo_exp, hi_exp):
-    return st.floats(lo_exp, hi_exp).map(lambda e: float(10.0 ** e))
+    return floats(lo_exp, hi_exp).map(lambda e: float(10.0 ** e))
 
 
 def ulps(v, k):
@@ -54,7 +65,7 @@ SPECIAL_ANGLES = [0.0, math.pi / 2, math.pi, -math.pi / 2, math.pi / 4, ulps(0.0
 
 
 def angle():
-    return st.one_of(st.floats(-math.pi, math.pi), st.sampled_from(SPECIAL_ANGLES))
+    return st.one_of(floats(-math.pi, math.pi), st.sampled_from(SPECIAL_ANGLES))
 
 
 def rot2(theta):
@@ -84,7 +95,7 @@ def rotation3(draw, kinds=('generic', 'inplane', 'axis')):
     """Proper 3x3 rotation as nested list, with its kind."""
     kind = draw(st.sampled_from(kinds))
     if kind == 'generic':
-        q = draw(st.lists(st.floats(-1, 1), min_size=4, max_size=4))
+        q = draw(st.lists(floats(-1, 1), min_size=4, max_size=4))
         R = quat_to_rot(q)
     elif kind == 'inplane':
         R = rotz(draw(angle()))
@@ -108,7 +119,7 @@ SPECTRUM_CLASSES = ('distinct', 'near_double', 'double_low', 'double_high', 'tri
 def spectrum(draw, classes=SPECTRUM_CLASSES, positive=False, mag_exp=(-3, 3)):
     cls = draw(st.sampled_from(classes))
     mag = draw(logfloat(*mag_exp))
-    a, b, c = sorted(draw(st.lists(st.floats(-1, 1), min_size=3, max_size=3)))
+    a, b, c = sorted(draw(st.lists(floats(-1, 1), min_size=3, max_size=3)))
     if positive:
         a, b, c = sorted(abs(v) + 0.05 for v in (a, b, c))
     gap_exp = None
@@ -166,7 +177,7 @@ def sym33(draw, classes=SPECTRUM_CLASSES, positive=False, mag_exp=(-3, 3),
 
 @st.composite
 def sym33_direction(draw):
-    v = draw(st.lists(st.floats(-1, 1), min_size=6, max_size=6))
+    v = draw(st.lists(floats(-1, 1), min_size=6, max_size=6))
     E = onp.array([[v[0], v[3], v[4]], [v[3], v[1], v[5]], [v[4], v[5], v[2]]])
     n = onp.linalg.norm(E)
     if n < 1e-3:
@@ -206,7 +217,7 @@ def defgrad(draw, classes=F_CLASSES, strain_exp=(-8, 0), max_strain=0.6, rotate=
         # polar factor computed below; keep F itself
         U = None
     elif cls == 'generic_planestrain':
-        v = draw(st.lists(st.floats(-1, 1), min_size=3, max_size=3))
+        v = draw(st.lists(floats(-1, 1), min_size=3, max_size=3))
         E = onp.array([[v[0], v[2], 0], [v[2], v[1], 0], [0, 0, 0.0]])
         U = onp.eye(3) + e * E / max(1.0, onp.abs(E).max())
     else:
@@ -271,7 +282,7 @@ def lattice_mesh(draw, nx=(1, 4), ny=(1, 4), fixed=None, affine=True, permute=Tr
     coords, conns = _lattice(NX, NY, diag)
     nn = coords.shape[0]
     if jitter and draw(st.booleans()):
-        J = onp.array(draw(st.lists(st.floats(-0.3, 0.3), min_size=2 * nn, max_size=2 * nn))).reshape(nn, 2)
+        J = onp.array(draw(st.lists(floats(-0.3, 0.3), min_size=2 * nn, max_size=2 * nn))).reshape(nn, 2)
         # only interior nodes move freely; boundary nodes slide along the boundary
         onb_x = (coords[:, 0] == 0) | (coords[:, 0] == NX)
         onb_y = (coords[:, 1] == 0) | (coords[:, 1] == NY)
@@ -286,14 +297,14 @@ def lattice_mesh(draw, nx=(1, 4), ny=(1, 4), fixed=None, affine=True, permute=Tr
             scale = 0.0
         coords = coords + scale * J
     # monotone grading per axis
-    gx = draw(st.floats(0.5, 2.5))
-    gy = draw(st.floats(0.5, 2.5))
+    gx = draw(floats(0.5, 2.5))
+    gy = draw(floats(0.5, 2.5))
     coords = onp.column_stack(((coords[:, 0] / NX) ** gx, (coords[:, 1] / NY) ** gy))
     if affine:
         sx = draw(loguniform(-1, 1))
-        ratio = draw(st.floats(1.0, 50.0)) if draw(st.booleans()) else 1.0
+        ratio = draw(floats(1.0, 50.0)) if draw(st.booleans()) else 1.0
         th = draw(angle())
-        t = draw(st.lists(st.floats(-10, 10), min_size=2, max_size=2))
+        t = draw(st.lists(floats(-10, 10), min_size=2, max_size=2))
         A = rot2(th) @ onp.diag([sx, sx * ratio])
         coords = coords @ A.T + onp.array(t)
     if _tri_areas(coords, conns).min() <= 0:     # cannot happen by construction; keep sound
@@ -319,11 +330,11 @@ def delaunay_mesh(draw, n=(2, 5), hole=True):
     NY = draw(st.integers(*n))
     pts = onp.array([[i, j] for j in range(NY + 1) for i in range(NX + 1)], dtype=float)
     nn = pts.shape[0]
-    J = onp.array(draw(st.lists(st.floats(-0.35, 0.35), min_size=2 * nn, max_size=2 * nn))).reshape(nn, 2)
+    J = onp.array(draw(st.lists(floats(-0.35, 0.35), min_size=2 * nn, max_size=2 * nn))).reshape(nn, 2)
     pts = pts + J
     th = draw(angle())
     sx = draw(loguniform(-1, 1))
-    ratio = draw(st.floats(1.0, 20.0)) if draw(st.booleans()) else 1.0
+    ratio = draw(floats(1.0, 20.0)) if draw(st.booleans()) else 1.0
     A = rot2(th) @ onp.diag([sx, sx * ratio])
     tri = Delaunay(pts, qhull_options='QJ Pp')
     conns = onp.array(tri.simplices, dtype=int)
@@ -333,9 +344,9 @@ def delaunay_mesh(draw, n=(2, 5), hole=True):
     keep = ar > 1e-3                      # drop slivers produced on the hull
     has_hole = False
     if hole and NX >= 3 and NY >= 3 and draw(st.booleans()):
-        cx = draw(st.floats(1.0, NX - 1.0))
-        cy = draw(st.floats(1.0, NY - 1.0))
-        r = draw(st.floats(0.3, 0.9))
+        cx = draw(floats(1.0, NX - 1.0))
+        cy = draw(floats(1.0, NY - 1.0))
+        r = draw(floats(0.3, 0.9))
         cen = pts[conns].mean(axis=1)
         inhole = ((cen[:, 0] - cx) ** 2 + (cen[:, 1] - cy) ** 2) < r * r
         if inhole.any() and (keep & ~inhole).sum() >= 2:
@@ -350,7 +361,7 @@ def delaunay_mesh(draw, n=(2, 5), hole=True):
     ne = conns.shape[0]
     rots = draw(st.lists(st.integers(0, 2), min_size=ne, max_size=ne))
     conns = onp.array([onp.roll(c, r_) for c, r_ in zip(conns, rots)])
-    t = draw(st.lists(st.floats(-10, 10), min_size=2, max_size=2))
+    t = draw(st.lists(floats(-10, 10), min_size=2, max_size=2))
     coords = pts @ A.T + onp.array(t)
     return {'kind': 'delaunay', 'hole': has_hole, 'coords': coords.tolist(), 'conns': conns.tolist()}
 
@@ -359,8 +370,8 @@ def delaunay_mesh(draw, n=(2, 5), hole=True):
 def structured_mesh(draw, n=(2, 6)):
     Nx = draw(st.integers(*n))
     Ny = draw(st.integers(*n))
-    x0 = draw(st.floats(-5, 5))
-    y0 = draw(st.floats(-5, 5))
+    x0 = draw(floats(-5, 5))
+    y0 = draw(floats(-5, 5))
     w = draw(loguniform(-2, 2))
     h = draw(loguniform(-2, 2))
     return {'kind': 'structured', 'Nx': Nx, 'Ny': Ny, 'xExtent': [x0, x0 + w], 'yExtent': [y0, y0 + h]}
